@@ -126,6 +126,8 @@ def plan(tier, seed):
             if fam == "JSON":
                 if tier == "quick":
                     for topo in topos_all:
+                        if topo in ("same-listchild", "children-of-two-objects"):
+                            continue  # thorough tier only
                         programs1 += pairs_for(c, topo, CORE6)
                 else:
                     full = {"dict": tuple(DICT_OPS), "list": tuple(LIST_OPS)}
